@@ -28,6 +28,8 @@ macro_rules! exception {
             concat!("exception: ", $fmt, ", exiting")
             $($tt)*
         );
+        #[cfg(lace_verif)]
+        crate::verif::on_exit(0xEE);
         std::process::exit(0xEE);
     }};
 }
@@ -128,6 +130,8 @@ impl RunEnvironment {
     /// Run with preset memory
     pub fn run(&mut self) {
         loop {
+            #[cfg(lace_verif)]
+            crate::verif::tick();
             if let Some(debugger) = &mut self.debugger {
                 Output::Debugger(Condition::Always, Default::default()).start_new_line();
 
@@ -184,10 +188,65 @@ impl RunEnvironment {
             let instr = self.state.mem[self.state.pc as usize];
             // PC incremented before instruction is performed
             self.state.pc += 1;
+            #[cfg(lace_verif)]
+            crate::verif::note_exec();
             self.state.execute(instr);
         }
 
         Output::Normal.start_new_line();
+    }
+}
+
+/// Verification accessors: read and write the architectural state, execute one word.
+#[cfg(lace_verif)]
+impl RunEnvironment {
+    pub fn verif_regs(&self) -> [u16; 8] {
+        self.state.reg
+    }
+    pub fn verif_pc(&self) -> u16 {
+        self.state.pc
+    }
+    pub fn verif_cc(&self) -> u8 {
+        self.state.flag as u8
+    }
+    pub fn verif_orig(&self) -> u16 {
+        self.state.orig
+    }
+    pub fn verif_mem(&self) -> &[u16; MEMORY_MAX] {
+        &self.state.mem
+    }
+    pub fn verif_mem_mut(&mut self) -> &mut [u16; MEMORY_MAX] {
+        &mut self.state.mem
+    }
+    pub fn verif_set_reg(&mut self, reg: usize, value: u16) {
+        self.state.reg[reg] = value;
+    }
+    pub fn verif_set_pc(&mut self, pc: u16) {
+        self.state.pc = pc;
+    }
+    /// `bits` is one of 0b100 (N), 0b010 (Z), 0b001 (P), 0 (none set yet).
+    pub fn verif_set_cc(&mut self, bits: u8) {
+        self.state.flag = match bits {
+            0b100 => RunFlag::N,
+            0b010 => RunFlag::Z,
+            0b001 => RunFlag::P,
+            _ => RunFlag::Uninit,
+        };
+    }
+    /// Calls `RunState::execute` exactly as the run loop does (PC is expected to be incremented
+    /// already).
+    pub fn verif_execute(&mut self, instr: u16) {
+        self.state.execute(instr);
+    }
+    pub fn verif_debugger_attached(&self) -> bool {
+        self.debugger.is_some()
+    }
+    /// Breakpoint list `(address, is_predefined)` in stored order, if a debugger is attached.
+    pub fn verif_breakpoints(&self) -> Option<Vec<(u16, bool)>> {
+        self.debugger.as_ref().map(|d| d.verif_breakpoints())
+    }
+    pub fn verif_current_breakpoint(&self) -> Option<Option<u16>> {
+        self.debugger.as_ref().map(|d| d.verif_current_breakpoint())
     }
 }
 
@@ -306,6 +365,8 @@ impl RunState {
                 Halting...\
                 "
             );
+            #[cfg(lace_verif)]
+            crate::verif::on_exit(1);
             std::process::exit(1);
         }
 
@@ -586,6 +647,8 @@ fn read_byte_stdin(mut stdin: io::Stdin) -> u8 {
             // This should NOT use `exception!`: it is an error with the
             // emulator, not the CPU
             eprintln!("unexpected end of input file stream.");
+            #[cfg(lace_verif)]
+            crate::verif::on_exit(1);
             std::process::exit(1);
         } else {
             panic!("failed to read character from stdin: {:?}", err)
